@@ -149,6 +149,7 @@ impl Monitor for C06 {
 		vec![
 			Lane { kind: LaneKind::Coverage(&["src/io/slippi/de.rs", "src/io/ubjson/de.rs", "src/io/mod.rs", "src/frame/mutable.rs", "src/game/shift_jis.rs"]), name: "reach", shards: vec![0], nshards: 1 },
 			Lane { kind: LaneKind::AsanQuick, name: "asan-quick", shards: vec![0], nshards: 1 },
+			Lane { kind: LaneKind::Fuzz(600), name: "fuzz", shards: vec![0], nshards: 1 },
 			Lane { kind: LaneKind::Miri, name: "hostile", shards: (0..324).step_by(7).collect(), nshards: 324 },
 		]
 	}
@@ -286,3 +287,58 @@ impl Monitor for C06 {
 	}
 }
 
+
+/// Judge one arbitrary input with the C06 monitors (every .slp reader mode) on a
+/// supervised thread. Prints `signature:` lines; exit 1 if any.
+pub fn classify(path: &std::path::Path) -> i32 {
+	let Ok(bytes) = std::fs::read(path) else {
+		println!("cannot read {}", path.display());
+		return 2;
+	};
+	let bytes = Arc::new(bytes);
+	let dbg = std::path::PathBuf::from("/nonexistent-debug-dir");
+	let cur: Arc<std::sync::Mutex<Option<Arc<Stats>>>> = Arc::new(std::sync::Mutex::new(None));
+	let (b2, c2) = (bytes.clone(), cur.clone());
+	let w = watched(
+		move || {
+			let mut res = vec![];
+			for mode in 0..5 {
+				let (o, _) = run_mode(&b2, mode, None, &dbg, |st| *c2.lock().unwrap() = Some(st));
+				res.push((MODES[mode].to_string(), o));
+			}
+			res
+		},
+		move || cur.lock().unwrap().clone().map_or(0, |s| s.calls() + s.bytes()),
+		Duration::from_secs(15),
+		Duration::from_secs(300),
+	);
+	let mut bad = 0;
+	match w {
+		Watched::Done(res) => {
+			for (mode, o) in res {
+				match o {
+					Outcome::Panic(loc, msg) => {
+						println!("signature: panic;{};{}", norm_loc(&loc), norm_msg(&msg));
+						println!("  mode {}: panic at {}: {}", mode, loc, msg);
+						bad += 1;
+					}
+					Outcome::Spin => {
+						println!("signature: eof-spin;mode={}", mode);
+						bad += 1;
+					}
+					_ => {}
+				}
+			}
+		}
+		Watched::Sleeping(e) | Watched::Spinning(e) => {
+			println!("signature: hang;classify\n  {}", e);
+			bad += 1;
+		}
+		Watched::Timeout(e) => println!("inconclusive: {}", e),
+	}
+	if bad > 0 {
+		1
+	} else {
+		0
+	}
+}
